@@ -87,10 +87,11 @@ def convOf (ty : Json) (parse : Option Int) (cv : Except String Num) : Except St
     pure (.ok (decValidate (fun _ => cv) { minVal := mn, maxVal := mx }))
   | "str" =>
     let long ← ty.getObjValAs? Bool "long"
+    let pl ← argOptInt ty "max_len_pos"
     let ml ← argOptInt ty "max_len"
     let dl ← argOptInt ty "dflt_len"
     let st ← ty.getObjValAs? Bool "autostrip"
-    match strInit long ml dl st with
+    match strInit long pl ml dl st with
     | .error e => pure (.error e)
     | .ok c => pure (.ok (strValidate c))
   | _ => throw s!"bad type kind {k}"
